@@ -37,7 +37,11 @@ func soupLockstep(rig *lockRig, c *soupCase, kinds map[string]bool) (msg string,
 	for s := 0; s < c.Steps; s++ {
 		for _, it := range c.Intr {
 			if it.AtStep == s {
-				rig.raise(refRequest(it))
+				if it.During > 0 {
+					rig.raiseDuring(it.During, refRequest(it))
+				} else {
+					rig.raise(refRequest(it))
+				}
 			}
 		}
 		for _, a := range c.Actions {
